@@ -12,6 +12,8 @@ package xpush
 //@   lock Mutex level 20
 //@   guarded_by Mutex: closed sendQ noPeerQ sendExpire sendQLen bestEffort failNoPeers readyQ pipes
 //@   immutable: closeQ cv
+//@   invariant cap(sendQ) >= 1
+//@   cond cv uses Mutex
 //@
 // ---- generated option contracts (tools/gen_option_contracts.py) ----
 //@ func (*socket).SetOption
@@ -73,6 +75,7 @@ package xpush
 //@   before call:Signal#1 assert held(s.Mutex)
 //@
 //@ func (*socket).sender
+//@   loop 1 invariant cap(s.sendQ) >= 1
 //@   before go:send#1 assert held(s.Mutex) && m != nil
 //@
 //@ func (*pipe).send
